@@ -177,6 +177,30 @@ fn main() {
             let got: Vec<u32> = unsafe { p.get_next_slices_mut(N - 1) }.map(|(h, t)| h.iter().chain(t.iter()).map(|x| x.0).collect()).unwrap_or_default();
             if got != vec![1, 2, 3, 4] { println!("MISMATCH LocalStackRB::from([1,2,3,4,5]): the producer's window reads {:?}", got); std::process::exit(1); }
         }
+        // n = 0 is refused with a panic by EVERY constructor of every variant
+        #[cfg(not(feature = "vmem"))]
+        {
+            use std::panic::catch_unwind;
+            let prev = std::panic::take_hook(); std::panic::set_hook(Box::new(|_| {}));
+            let cases: Vec<(&str, bool)> = vec![
+                ("ConcurrentHeapRB::default(0)", catch_unwind(|| { let _ = ConcurrentHeapRB::<D7>::default(0); }).is_err()),
+                ("LocalHeapRB::default(0)", catch_unwind(|| { let _ = LocalHeapRB::<D7>::default(0); }).is_err()),
+                ("ConcurrentHeapRB::from(vec![])", catch_unwind(|| { let _ = ConcurrentHeapRB::<D7>::from(Vec::<D7>::new()); }).is_err()),
+                ("LocalHeapRB::from(vec![])", catch_unwind(|| { let _ = LocalHeapRB::<D7>::from(Vec::<D7>::new()); }).is_err()),
+                ("ConcurrentHeapRB::new_zeroed(0)", catch_unwind(|| { let _ = unsafe { ConcurrentHeapRB::<D7>::new_zeroed(0) }; }).is_err()),
+                ("LocalHeapRB::new_zeroed(0)", catch_unwind(|| { let _ = unsafe { LocalHeapRB::<D7>::new_zeroed(0) }; }).is_err()),
+                ("ConcurrentStackRB::<_, 0>::default()", catch_unwind(|| { let _ = ConcurrentStackRB::<D7, 0>::default(); }).is_err()),
+                ("LocalStackRB::<_, 0>::default()", catch_unwind(|| { let _ = LocalStackRB::<D7, 0>::default(); }).is_err()),
+                ("ConcurrentStackRB::<_, 0>::from([])", catch_unwind(|| { let _ = ConcurrentStackRB::<D7, 0>::from([]); }).is_err()),
+                ("LocalStackRB::<_, 0>::from([])", catch_unwind(|| { let _ = LocalStackRB::<D7, 0>::from([]); }).is_err()),
+                ("ConcurrentStackRB::<_, 0>::new_zeroed()", catch_unwind(|| { let _ = unsafe { ConcurrentStackRB::<D7, 0>::new_zeroed() }; }).is_err()),
+                ("LocalStackRB::<_, 0>::new_zeroed()", catch_unwind(|| { let _ = unsafe { LocalStackRB::<D7, 0>::new_zeroed() }; }).is_err()),
+            ];
+            std::panic::set_hook(prev);
+            for (name, refused) in cases {
+                if !refused { println!("MISMATCH {}: a buffer of length 0 is accepted (n = 0 must be refused with a panic)", name); std::process::exit(1); }
+            }
+        }
         sessions += 1;
     }
     for _ in 0..24 {
